@@ -93,15 +93,15 @@ Definition KF_C21_ack_before_forward (evs : list event) (k : nat) : bool := late
    acknowledges is written *)
 Definition ack_before_write (evs : list event) (k : nat) : bool := late settles evs k.
 
-(* writes issued for a client object that has been taken over must not touch the state of the
-   session with that client id, which now belongs to the client that took over *)
+(* writes issued for a client object that has been taken over must not delete or overwrite the state
+   of the session with that client id, which now belongs to the client that took over.  (Additions
+   are not covered by the property: a message routed to the old client object in the take-over
+   window - e.g. its own will, when the session subscribes to it - is stored under the session.) *)
 Definition touches_session (c : bytes) (a : awr) : bool :=
   match a with
   | ASetClient r => beq_bytes (cr_id r) c
   | ADelClient c' => beq_bytes c' c
-  | ASetSub c' _ _ => beq_bytes c' c
   | ADelSub c' _ => beq_bytes c' c
-  | ASetIfm c' _ _ => beq_bytes c' c
   | ADelIfm c' _ => beq_bytes c' c
   | _ => false
   end.
